@@ -53,7 +53,7 @@ def run(tier, seed, replay=None):
     rng = random.Random(seed * 7919 + 16)
     g = PlanGen(rng)
     n = 70 if tier == "quick" else 1500
-    plans = [g.trait_args_plan() for _ in range(n)] + [g.diagonal_trait_args_plan() for _ in range(max(4, n // 8))]
+    plans = [g.trait_args_plan() for _ in range(n)] + [g.diagonal_trait_args_plan() for _ in range(max(4, n // 8))] + [g.default_vs_explicit_plan() for _ in range(max(3, n // 15))]
     evs = PC.evaluate(so, plans)
     known = {f["id"] for f in C.findings_for(PROP)}
     ok_plans = []
